@@ -186,7 +186,8 @@ BASE = {
     'assert': ['exit-code == 0', '$ touch assert-marker'],
     'cleanup': ['$ touch cleanup-marker', "file f2.txt = -stdout-from $ echo c"],
 }
-PRELUDE = ['def line-matcher LM = contents matches x', 'def path HP = -rel-home x', 'def string S = s']
+PRELUDE = ['def line-matcher LM = contents matches x', 'def path HP = -rel-home x', 'def string S = s',
+           'def path AP = /vsym-no-such-dir/sub']
 PHASES = ('setup', 'before-assert', 'assert', 'cleanup')
 
 # (name, defective line, expected identifiers, extra)
@@ -218,6 +219,10 @@ DEFECTS = (
     ('assert-stdout-from-program-with-missing-home-file-arg',
      "stdout -from % echo -existing-file -rel-home missing.txt\n       equals 'expected'", ('VALIDATION_ERROR',), 'assert-only'),
     ('assert-exit-code-bad-integer', "exit-code == 1+", ('VALIDATION_ERROR',), 'assert-only'),
+    ('missing-absolute-file-copy', 'copy /vsym-no-such-dir/f.txt', ('VALIDATION_ERROR',), None),
+    ('missing-absolute-file-via-path-symbol', 'copy @[AP]@/f.txt', ('VALIDATION_ERROR',), None),
+    ('missing-absolute-file-contents-of', 'file c.txt = -contents-of /vsym-no-such-dir/f.txt', ('VALIDATION_ERROR',), None),
+    ('missing-absolute-program', 'run /vsym-no-such-dir/program arg', ('VALIDATION_ERROR',), None),
     ('bad-integer-expression', 'timeout = 1+', ('VALIDATION_ERROR',), None),
     ('bad-integer-name', 'timeout = abc', ('VALIDATION_ERROR',), None),
     ('bad-regex', "file r.txt = -contents-of -rel-home existing.txt -transformed-by replace '(' y", ('VALIDATION_ERROR',), None),
